@@ -809,6 +809,45 @@ func (e *Engine) callBuiltin(st *State, name string, args []Value, cc *ssa.CallC
 	case "print", "println":
 		return e.ret(st, Tuple{})
 	case "clear":
+		switch x := args[0].(type) {
+		case Slice:
+			if x.Obj == nil {
+				return e.ret(st, Tuple{})
+			}
+			var elemT types.Type
+			if cc != nil {
+				if sl, ok := cc.Args[0].Type().Underlying().(*types.Slice); ok {
+					elemT = sl.Elem()
+				}
+			}
+			if elemT == nil {
+				return e.ret(st, Poison{"clear of untyped slice"})
+			}
+			z := e.zero(elemT)
+			cn := e.sliceCapN(st, x)
+			for i := 0; i < cn; i++ {
+				it := e.c64(i)
+				in := e.tt.ULt(it, x.Len)
+				if in == e.tt.False {
+					break
+				}
+				p := e.sliceElemPtr(x, it)
+				if in == e.tt.True {
+					e.storePtr(st, p, z)
+				} else {
+					b := e.ownBoxOf(st, p.Obj)
+					b.V = e.storeAt(b.V, p.Path, z, in, st.epoch)
+				}
+			}
+			return e.ret(st, Tuple{})
+		case MapRef:
+			if x.Obj == nil {
+				return e.ret(st, Tuple{})
+			}
+			b := e.ownBoxOf(st, x.Obj)
+			b.V = &MapObj{Epoch: st.epoch}
+			return e.ret(st, Tuple{})
+		}
 		return e.ret(st, Poison{"clear"})
 	case "recover":
 		return e.ret(st, Iface{})
